@@ -7,3 +7,10 @@ package interop
 
 //@ func ConvertToFunctionResponseMode
 //@   modifies nothing
+
+// C06: the platform-generated error body carries the error type it is given (Sandbox.Failure only if it cannot be serialised)
+//@ event ErrorBodyMarshalled = ret encoding/json.Marshal
+//@ func GetErrorResponseWithFormattedErrorMessage
+//@   modifies nothing
+//@   ensures [carries-the-type] r0 != nil && fresh(r0) && (r0.FunctionError.Type == errorType || r0.FunctionError.Type == fatalerror.SandboxFailure && len(r0.Payload) == 0)
+//@   ensures [body-is-the-serialised-error] len(r0.Payload) != 0 ==> r0.FunctionError.Type == errorType
